@@ -1,0 +1,74 @@
+//! Verification hooks (cargo feature `verif-hooks`, off by default).
+//!
+//! Every durable write of the database layer (`RocksDBTransaction::commit`,
+//! `RocksDB::{write, write_sync, put_default}`) reports here first. A simulator
+//! may install a callback that lets the write proceed, makes it fail with an
+//! internal database error (simulated I/O error / full disk), or kills the
+//! process right before or right after the write (simulated crash).
+use crate::{Result, internal_error};
+use std::sync::RwLock;
+use std::sync::atomic::{AtomicU64, Ordering};
+
+/// What the simulator decides for one durable write.
+#[derive(Clone, Copy, Debug, PartialEq, Eq)]
+pub enum Action {
+    /// perform the write
+    Proceed,
+    /// do not write, return an internal database error
+    Fail,
+    /// the process dies before the write
+    DieBefore,
+    /// the process dies after the write completed
+    DieAfter,
+}
+
+type Callback = Box<dyn Fn(u64, &'static str) -> Action + Send + Sync>;
+
+/// Number of durable writes attempted so far in this process (1-based index of the latest).
+pub static WRITES: AtomicU64 = AtomicU64::new(0);
+static CALLBACK: RwLock<Option<Callback>> = RwLock::new(None);
+
+/// Install (or clear) the decision callback: `f(index, kind)`.
+pub fn set_callback(f: Option<Callback>) {
+    *CALLBACK.write().expect("verif callback lock") = f;
+}
+
+/// Durable writes attempted so far.
+pub fn writes() -> u64 {
+    WRITES.load(Ordering::SeqCst)
+}
+
+fn die() -> ! {
+    // no destructors, no atexit handlers: only what reached the OS survives
+    unsafe { libc::_exit(86) }
+}
+
+/// Dropped after the write returned.
+pub struct WriteGuard {
+    die_after: bool,
+}
+
+impl Drop for WriteGuard {
+    fn drop(&mut self) {
+        if self.die_after {
+            die();
+        }
+    }
+}
+
+/// Called at the top of every durable write.
+pub fn before_write(kind: &'static str) -> Result<WriteGuard> {
+    let index = WRITES.fetch_add(1, Ordering::SeqCst) + 1;
+    let action = match CALLBACK.read().expect("verif callback lock").as_ref() {
+        Some(f) => f(index, kind),
+        None => Action::Proceed,
+    };
+    match action {
+        Action::Proceed => Ok(WriteGuard { die_after: false }),
+        Action::Fail => Err(internal_error(format!(
+            "IO error: verif injected failure at durable write #{index} ({kind})"
+        ))),
+        Action::DieBefore => die(),
+        Action::DieAfter => Ok(WriteGuard { die_after: true }),
+    }
+}
